@@ -165,7 +165,7 @@ class _TableFormSection(object):
   `table_forms` property."""
 
   _section_name_prefix = "Table-Form"
-  _section_name_regex = re.compile("^{}:(.*)$".format(_section_name_prefix))
+  _section_name_regex = re.compile(r"^{}\s*:(.*)$".format(_section_name_prefix))
 
   def __init__(self, cfg_parser):
     self._cfg_parser = cfg_parser
